@@ -4,7 +4,7 @@
 #   build.sh           incremental build
 #   build.sh clean     remove build output first
 set -u
-V=/verif
+V=${VERIF_ROOT:-$(cd "$(dirname "$0")/.." && pwd)}
 mkdir -p $V/.work
 exec 9>$V/.work/build.lock
 flock 9
